@@ -156,6 +156,15 @@ def call_lib(fname, method, n, order, x, extra_args=(), extra_kwds=None, fun=Non
     return np.asarray(der), np.asarray(info.error_estimate)
 
 
+def python_valued(f):
+    def g(x, *a, **k):
+        v = f(x)
+        if isinstance(v, (np.generic, np.ndarray)) and np.ndim(v) == 0:
+            return v.item()
+        return v
+    return g
+
+
 def object_valued(f):
     def g(x, *a, **k):
         v = f(x)
@@ -231,6 +240,21 @@ class Unit(object):
     def scalars(self):
         for u in POOL:
             self.scalar[u] = self.lib(float(u), 'scalar', dict(shape=[], t=u))
+            # the same scalar point with a function that returns plain Python numbers (float / complex) for a scalar
+            # argument, as a wrapper around math.* code does: the same bits
+            ref = self.scalar[u]
+            if ref is not None:
+                self.acc.evaluations += 1
+                case = dict(shape=[], t=u, kind='scalar', form='python-number-valued-f')
+                try:
+                    der, est = call_lib(self.fname, self.method, self.n, self.order, float(u), fun=python_valued(FUNCS[self.fname]))
+                    same = der.shape == ref[0].shape and bool(np.all(bits_equal(der, ref[0])))
+                    if not same:
+                        self.violation('python-number-valued-f', 'differs', case,
+                                       'x=%r: %s with f returning Python numbers, %s with numpy scalars' % (u, _txt(der), _txt(ref[0])), 0)
+                except Failed as e:
+                    self.violation('raised-' + e.kind, 'python-number-valued-f', case,
+                                   'x=%r with a function returning a plain Python number raised %s' % (u, e), 0)
 
     def check_scalar(self, shape, u, ref):
         """reference (constant array of u) against the scalar call on u."""
